@@ -105,6 +105,13 @@ Definition class_VP8Encoder : list (string * fclass) := [
   ("serialTmpRGB", Scratch)
 ].
 
+(** resets delegated to a callee that re-initialises the whole field: (field, callee as
+    it appears in the regenerated call lists).  ResetProba writes Segments, Bands and
+    BandsPtr completely; TokenBuffer.Reset is checked field by field (class_TokenBuffer);
+    ParseQuant writes every matrix of all four segments. *)
+Definition delegated_resets : list (string * string) :=
+  [("proba", "ResetProba(&proba)"); ("tokens", "tokens.Reset"); ("dqm", "ParseQuant(dqm[:])")].
+
 (** the accesses to the ConstZero field VP8Encoder.yuvP the model accounts for: the
     allocation, and being handed to PickBestI4Mode as its prediction buffer *)
 Definition modelled_yuvP_accesses : list (string * string) :=
